@@ -10,13 +10,13 @@ Import ListNotations.
    find-one-and-modify, index create/drop, drops): if the call reports an
    error, nobody's view of the database changes — the committed catalog
    (documents, every index entry, the change log) and every open
-   transaction's catalog are identical to before the call.  Excluded: a
-   find-one-and-modify WITH a projection issued inside an explicit session
-   transaction (known finding: a projection that fails on the returned
-   document leaves the write in that open transaction). *)
+   transaction's catalog are identical to before the call.  (This includes a
+   find-one-and-modify whose projection fails inside an explicit session
+   transaction: lungo c9a1dbb reverts the transaction to a checkpoint; before
+   that repair this case had to be excluded by hypothesis.) *)
 Theorem C02_single_write_error_noop :
   forall matchf applyf extractf projectf now ds c ds' e,
-    single_write c -> ~ projected_in_session ds c ->
+    single_write c ->
     step matchf applyf extractf projectf now ds c = (ds', RErr e) ->
     same_views ds ds'.
 Proof. exact step_error_noop. Qed.
